@@ -162,9 +162,10 @@ def main():
             "add_only": True,
         },
         "engines": [
-            {"name": "simnet", "path": "harness/src/simnet", "serves_properties": [], "kind_free_text": "whole anemo networks on an in-memory datagram fabric under tokio's paused clock; proptest-generated scenarios, faults and schedules"},
-            {"name": "proptest", "path": "harness/src/core.rs", "serves_properties": [], "kind_free_text": "sharded proptest driver with labels, distinct-non-trivial counting, shrinking to replay files"},
-            {"name": "libfuzzer", "path": "fuzz", "serves_properties": [], "kind_free_text": "cargo-fuzz targets sharing the harness oracles (thorough tiers)"},
+            {"name": "simnet", "path": "harness/src/simnet", "serves_properties": ["C01","C02","C03","C04","C05","C06","C08","C09","C10","C11","C12","C13","C14","C15","C17"], "kind_free_text": "whole anemo networks on an in-memory datagram fabric under tokio's paused clock; proptest-generated scenarios, faults and schedules"},
+            {"name": "proptest", "path": "harness/src/core.rs", "serves_properties": ALL, "kind_free_text": "sharded proptest driver with labels, distinct-non-trivial counting, shrinking to replay files"},
+            {"name": "teardown-racer", "path": "harness/src/props/c08_racer.rs", "serves_properties": ["C08"], "kind_free_text": "child processes on a multi-thread runtime; a tracing subscriber pre-empts one worker at generated poll points while the runtime is torn down"},
+            {"name": "libfuzzer", "path": "harness/fuzz", "serves_properties": ["C01","C06","C07","C16"], "kind_free_text": "cargo-fuzz targets sharing the harness oracles (thorough tiers)"},
         ],
         "checks": checks,
         "notes": "Fix commits in /repo (see known_findings.json, status fixed): ed9e037, 4652d7a, d4b9ef4, 1928b31. All checks: exit 0 held / 1 VIOLATION / 2 inconclusive (build failure, simulator livelock, generator-health gate). Known findings are listed in known_findings.json and printed as KNOWN-FINDING lines.",
